@@ -2205,7 +2205,14 @@ impl Context {
             }
             Expr::Block(b) => {
                 if let Some(block) = b {
-                    self.eval_expr(*block)
+                    // Curly braces create a local scope: bindings made inside the block must not
+                    // be visible (nor shadow outer bindings) after it.
+                    let n_binds = self.valenv.0.front().map_or(0, |binds| binds.len());
+                    let res = self.eval_expr(*block);
+                    if let Some(binds) = self.valenv.0.front_mut() {
+                        binds.truncate(n_binds);
+                    }
+                    res
                 } else {
                     (Arc::new(Value::None), unit!(), vec![])
                 }
